@@ -1063,6 +1063,10 @@ class TextXVisitor(RRELVisitor):
 
         except IndexError:
             to_match = ""
+        except UnicodeDecodeError as e:
+            # Malformed escape sequence (e.g. '\xzz')
+            line, col = self.grammar_parser.pos_to_linecol(node.position)
+            raise TextXSyntaxError(str(e), line, col) from e
 
         # Support for autokwd metamodel param.
         if self.metamodel.autokwd:
